@@ -89,6 +89,35 @@ def kind_class(op, tok):
         return ""
     return "/K" + hit + ("" if own else "-")
 
+def syntax_class(tok):
+    """R-12c / D-12g class of a request's field list: `/Y` followed by one letter per crate-independent necessary condition
+    that a pseudo-header value of the section fails — `s` (:scheme not an RFC 3986 scheme: empty, first byte not a letter,
+    a byte outside letters / digits / + - .), `a` (:authority with two `@`, or a non-numeric port), `p` (:path with `#`),
+    `e` (:path empty under http / https). Empty when all hold."""
+    try:
+        fs = parse_ftok(tok)
+    except ValueError:
+        return ""
+    hit = set()
+    schemes = [v for n, v, _ in fs if n == S]
+    for n, v, _ in fs:
+        if n == S:
+            ok = len(v) > 0 and chr(v[0]).isalpha() and v[0] < 128 and all((b < 128 and chr(b).isalnum()) or b in b"+-." for b in v)
+            if not ok:
+                hit.add("s")
+        elif n == A:
+            hp = v.rsplit(b"@", 1)[-1]
+            port_ok = hp.startswith(b"[") or b":" not in hp or hp.split(b":", 1)[1].isdigit() or hp.split(b":", 1)[1] == b""
+            if v.count(b"@") > 1 or not port_ok:
+                hit.add("a")
+        elif n == P:
+            if b"#" in v:
+                hit.add("p")
+            if v == b"" and schemes and all(x in (b"http", b"https") for x in schemes):
+                hit.add("e")
+    return "/Y" + "".join(sorted(hit)) if hit else ""
+
+
 VALID_NAMES = [b"a", b"x-custom", b"accept", b"content-type", b"set-cookie", b"te", b"cookie", b"x_y.z", b"0", b"!#$%&'*+-.^_`|~",
                b"a" * 64, b"a" * 65, b"content-length", b"host"]
 BAD_NAMES = [b"", b"A", b"Content-Type", b"hosT", b"a b", b" a", b"a ", b"a\x00", b"a\r\n", b"a:b", b"a(b", b"a)b", b"a,b", b"a/b", b"a;b",
@@ -130,11 +159,18 @@ class C12(Prop):
                   "the property text and RFC 9114 §4.2-4.3 and the parts handed over carry exactly the received values; every "
                   "other list is refused (no panic) and each of the three call sites turns every HeaderError into a "
                   "stream-level H3_MESSAGE_ERROR; HeaderIter yields the pseudo-header fields first, each at most once, in a "
-                  "fixed order, with the caller's values, then the map in its own order")
+                  "fixed order, with the caller's values, then the map in its own order; reading R-12c: the :protocol tokens are "
+                  "written out in the specification and proved equal to the list read from ext.rs, and the crate-independent "
+                  "necessary conditions of a parseable :scheme / :authority / :path (RFC 3986 3.1-3.4, RFC 9114 4.3.1) are proved "
+                  "for every Http whose parsers refuse what they exclude (_partial; the real http crate does not: finding D-12g, "
+                  "negation witness by decide)")
     level_note = ("trusted: Lean kernel + 3 standard axioms; hand-written model tied to the code by the differential run: the real "
                   "Header functions (function level), the real poll_recv_trailers over an in-memory stream, and the real "
                   "server accept+resolve_request / client send_request+recv_response over a private 160-line in-memory "
-                  "transport, against the model on identical case lines; tools/extract.py regenerates the Protocol table, the "
+                  "transport, the real send_request / send_response / send_trailers (client and server) with every byte written "
+                  "on the request stream read back by the specification's RFC 9204 reference decoder (driver op `hdr dec`), and "
+                  "trailers received through the public recv_data + recv_trailers wrappers of client and server, "
+                  "against the model on identical case lines; tools/extract.py regenerates the Protocol table, the "
                   "error codes used at the three call sites and six source decisions the model switches on; http crate: four "
                   "validators modelled concretely (all 256 single-byte names/values/methods and digit triples enumerated against "
                   "the real crate), Scheme/Authority/PathAndQuery/Uri::builder abstract with four listed laws, instantiated per "
@@ -148,12 +184,16 @@ class C12(Prop):
             ":path/:protocol in responses before/after/around :status and without it; valid, repeated, unparseable values; each at the function "
             "level and through the real server/client call site), field counts around and far beyond 24576 (no limit), 24576 / 24577 distinct names (the HeaderMap limit), seeded random lists; every second "
             "request/response case (thorough: every one) again through the real server/client call site; sent side: methods x "
-            "URI shapes x protocol x maps; non-trivial = implementation result is ok/reject/refused/sent "
+            "URI shapes x protocol x maps, every third of these lines (every extended CONNECT) again through the public send call "
+            "(wreq / wresp / wtrlc / wtrls: the written HEADERS frame decoded by the reference decoder), every third trailer section "
+            "again through the public receive wrappers (trlc / trls); non-trivial = implementation result is ok/reject/refused/sent "
             "(not bad-op/bad-verdicts/unbuildable/panic/law-violated)")
     trusted = ["http 1.x crate (HeaderName/HeaderValue/Method/StatusCode concrete models; Scheme/Authority/PathAndQuery/Uri "
                "abstract, verdicts supplied by the real crate on every case line; HeaderMap iteration order = groups in order "
                "of first insertion)",
-               "qpack::encode_stateless/decode_stateless round trip inside the trailers engine (C11)"]
+               "qpack::encode_stateless/decode_stateless round trip inside the trailers engine (C11)",
+               "the w... ops trust H3.Spec.Qpack.specDecode (the RFC 9204 reference decoder of C11's specification) and a ten-line "
+               "frame-header reader in Drv/C12.lean to read what h3 wrote"]
     assumptions = ["HttpLaws: Authority::from_str(\"\") fails; Authority::as_str is the input; Uri::builder with an empty authority "
                    "fails; the builder parses its authority with Authority's parser (each checked on every verdict table)",
                    "http::HeaderMap::try_append fails exactly when it is called on a map that already holds 24576 distinct names "
@@ -161,6 +201,10 @@ class C12(Prop):
                    "the name; any number of values per name; the hash-flooding defence (yellow/red danger states after probe "
                    "sequences of >= 512 slots) is not modelled; checked by boundary cases on the real crate",
                    "caller-built HeaderMap names satisfy HeaderName's invariant (no ':'), values HeaderValue's",
+                   "R-12c: 'parseable' = the http crate's parser accepts the value AND the value satisfies the crate-independent "
+                   "necessary conditions SyntaxOk (scheme = RFC 3986 3.1 grammar; authority: at most one @, numeric port outside an IP "
+                   "literal; path: no #, not empty under http/https); not demanded: no userinfo, non-empty host, port < 65536; open "
+                   "finding D-12g on the first three",
                    "R-12: duplicated pseudo-header fields (which of several different values counts), pseudo-header fields after "
                    "regular ones, missing :scheme/:path are not demanded by the "
                    "property text; demanded (D-12f): 'only defined pseudo-header fields' = defined for this kind of message "
@@ -193,12 +237,32 @@ class C12(Prop):
                 L.append("hdr %s %s %s" % (r[0], r[1], vt[r[1]]))
         return L
 
+    # ------------------------------------------------------------------ projection: what h3 wrote, read by the reference decoder
+    def project_all(self, lines, impls):
+        """`wire <hex>` (ops wreq / wresp / wtrlc / wtrls: every byte the real send call wrote on the request stream) is
+        replaced by what the driver's op `hdr dec <hex>` reads in it: ONE complete HEADERS frame whose field section the
+        RFC 9204 reference decoder of the specification (`H3.Spec.Qpack.specDecode`) decodes, printed as `sent <fields>`;
+        anything else comes back as `wire-bad:<why>` and matches no specification."""
+        idx = [i for i, o in enumerate(impls) if o.startswith("wire ")]
+        if not idx:
+            return list(impls)
+        uniq = sorted(set(impls[i][5:] for i in idx))
+        rc, out, err = vlib.run_lines(vlib.DRV, ["hdr dec " + h for h in uniq])
+        if rc != 0 or len(out) != len(uniq):
+            raise RuntimeError("h3drv hdr dec failed rc=%s %s" % (rc, err[-300:]))
+        dec = dict(zip(uniq, out))
+        res = list(impls)
+        for i in idx:
+            res[i] = dec[impls[i][5:]]
+        return res
+
     # ------------------------------------------------------------------ generators
     def cases(self, tier, rng):
         big = tier == "thorough"
         raw = []
 
         count = [0]
+        tcount = [0]
 
         def recv(op, fields):
             tok = ftok(fields)
@@ -209,6 +273,11 @@ class C12(Prop):
                 count[0] += 1
                 if big or count[0] % 2 == 0:
                     raw.append(({"req": "srv", "resp": "cli"}[op], tok))
+            # trailers through the PUBLIC wrappers client::RequestStream::recv_trailers / server::RequestStream::recv_trailers
+            if op == "trl":
+                tcount[0] += 1
+                if big or tcount[0] % 3 == 0:
+                    raw.append(("trlc" if tcount[0] % 2 else "trls", tok))
 
         def in_all(extra, ops=("req", "resp", "trl")):
             """the extra fields placed into an otherwise fine section of each kind"""
@@ -225,6 +294,10 @@ class C12(Prop):
         recv("req", REQ_MIN)
         recv("resp", RESP_BASE)
         recv("trl", [(b"x-trailer", b"1")])
+        for op in ("trlc", "trls"):
+            for fs in ([], [(b"x-trailer", b"1")], [(b"b", b"1"), (b"a", b"2"), (b"b", b"3")], [(ST, b"200")], [(b"x", b"1"), (M, b"GET")],
+                       [(b"X", b"1")], [(b"x", b"\r")], [(b":x", b"1")], [(b"", b"1")], [(b'a"b', b"1")]):
+                raw.append((op, ftok(fs)))
 
         # names x values
         for n in VALID_NAMES + BAD_NAMES + BAD_PSEUDO:
@@ -564,6 +637,27 @@ class C12(Prop):
                 raw.append("hdr sresp %d %s" % (rng.randrange(100, 1000), ftok(mp)))
             else:
                 raw.append("hdr strl " + ftok(mp))
+        # the send sentence at the API: every function-level send line that is not `unbuildable` by construction again through
+        # the real send_request / send_response / send_trailers (ops wreq / wresp / wtrlc / wtrls), the bytes written on the
+        # request stream read back by the reference decoder (`project_all`); quick: every third one, extended CONNECT always
+        wcount = 0
+        for r in list(raw):
+            if not isinstance(r, str):
+                continue
+            w = r.split()
+            if w[1] not in ("sreq", "sresp", "strl"):
+                continue
+            wcount += 1
+            ext_connect = w[1] == "sreq" and w[6] != "~"
+            if not (big or ext_connect or wcount % 3 == 0):
+                continue
+            if w[1] == "sreq":
+                raw.append(" ".join(["hdr", "wreq"] + w[2:]))
+            elif w[1] == "sresp":
+                raw.append(" ".join(["hdr", "wresp"] + w[2:]))
+            else:
+                raw.append("hdr wtrlc " + w[2])
+                raw.append("hdr wtrls " + w[2])
         return self.finish(raw)
 
     # ------------------------------------------------------------------ statistics
@@ -578,16 +672,18 @@ class C12(Prop):
             k += host_class(w[2])
         if w[1] in ("req", "srv", "resp", "cli"):
             k += kind_class(w[1], w[2])
+        if w[1] in ("req", "srv"):
+            k += syntax_class(w[2])
         return k
 
     def trivial(self, line, impl):
-        return impl.split(" ")[0] not in ("ok", "reject", "refused", "sent")
+        return impl.split(" ")[0] not in ("ok", "reject", "refused", "sent", "wire")
 
     # ------------------------------------------------------------------ shrinking
     def shrink_candidates(self, line):
         w = line.split()
         out = []
-        if w[1] in ("req", "resp", "trl", "srv", "cli"):
+        if w[1] in ("req", "resp", "trl", "srv", "cli", "trlc", "trls"):
             fs = parse_ftok(w[2])
             cands = []
             for i in range(len(fs)):
@@ -609,7 +705,7 @@ class C12(Prop):
                 return []
             for t in toks:
                 out.append("hdr %s %s %s" % (w[1], t, vt[t]))
-        elif w[1] in ("sreq", "sresp", "strl"):
+        elif w[1] in ("sreq", "sresp", "strl", "wreq", "wresp", "wtrlc", "wtrls"):
             fs = parse_ftok(w[-1])
             for i in range(len(fs)):
                 out.append(" ".join(w[:-1] + [ftok(fs[:i] + fs[i + 1:])]))
